@@ -163,6 +163,9 @@ def run(an: Analysis, rep):
         isinstance(g[0], ast.Call) and "Jump" in {x.id for x in ast.walk(g[0]) if isinstance(x, ast.Name)} for g in guards_of(f.module, f, parent_map(f.module)[id(_stmt_of(f, kw[0]))] if False else _stmt_of(f, kw[0])))
     rep.add("R13.4", f"{f.qual}::only jump operands are rewritten", bool(ok_k), loc(f.module, kw[0].value) if kw else loc(f.module, loop2),
             "the rewrite is guarded by isinstance(arg, Jump) and stores the index as Jump.target" if ok_k else "jump rewrite not recognised")
+    from .common import SharedRules
+    from . import c02
+    rep.run(c02.jump_rules, an, SharedRules(rep, "R13.J", "decoded jump targets are the offsets CPython jumps to (shared with C02's R02.3/R02.5): blocks start exactly there"), False)
     rep.stats.update(an.stats([it]))
     rep.assumptions += ["compiler output never jumps into the middle of an EXTENDED_ARG sequence (CPython's assembler targets the first unit)"]
 
